@@ -91,18 +91,24 @@ def getRange (s : S) (start stop : Int) : Option Bytes :=
   if start > stop then none else
   some ((v.drop start.toNat).take (stop - start).toNat)
 
-def setRange (s : S) (offset : Int) (data : Bytes) : S × Int :=
-  if offset < 0 then (s, 0) else
+/-- `SetRange(offset, data)`; `none` = panic (slice bounds after an int64 overflow of
+    `offset+len`, or a growth the allocator refuses — the RESP handler rejects such offsets before
+    they get here, the embedded API does not) -/
+def setRange (s : S) (offset : Int) (data : Bytes) : Option (S × Int) :=
+  if offset < 0 then some (s, 0) else
   let v := bytes s
   let dLen : Int := data.length
   let vLen : Int := v.length
-  let grown := offset + dLen > vLen
-  let v1 := if grown then v ++ zeros (offset + dLen - vLen).toNat else v
+  let sum := wrap64 (offset + dLen)
+  let grown := sum > vLen
+  if grown ∧ sum - vLen > 1073741824 then none else     -- beyond 1 GiB the model does not follow the allocator
+  if !grown ∧ offset > vLen then none else               -- s.V[offset:] out of range
+  let v1 := if grown then v ++ zeros (sum - vLen).toNat else v
   let o := offset.toNat
   let v2 := v1.take o ++ data ++ v1.drop (o + data.length)
   let s' : S := match s with
     | none => if grown then some v2 else none
     | some _ => some v2
-  (s', len s')
+  some (s', len s')
 
 end NodisVerif.DsStr
